@@ -106,6 +106,24 @@ def make_probe(desc, k):
         stmts = pre + [A.pr(A.IStr(parts)), A.pr(V(c)), A.pr(A.IStr([A.clone(p) if isinstance(p, A.Node) else p for p in parts]))]
         value2 = "<" + "".join(("t" if same_text else "t%d" % i) + "abcdefgh"[nslots + i] + "|" for i in range(nslots)) + ">"
         return {"stmts": stmts, "expect": [value, str(nslots), value2], "tag": "slot_side_effects", "what": "%d slots calling a counting function (%s slot text)" % (nslots, "identical" if same_text else "distinct")}
+    if desc[0] == "lookalike":
+        # text (or a slot value) that spells a slot of the same literal: it is plain text, never substituted
+        variant = desc[1]
+        sv, w = "sv%d" % k, "w%d" % k
+        pre = [A.Declare(V(sv), S("é-val")), A.Declare(V(w), A.StrLit("\\${%s}" % sv, "${%s}" % sv))]
+        look = ("\\${%s}" % sv, "${%s}" % sv)
+        if variant == "text_before":
+            parts, value = [look, " is ", V(sv)], "${%s} is é-val" % sv
+        elif variant == "text_after":
+            parts, value = [V(sv), " was ", look], "é-val was ${%s}" % sv
+        elif variant == "value_before":
+            parts, value = [V(w), "|", V(sv)], "${%s}|é-val" % sv
+        elif variant == "value_after":
+            parts, value = [V(sv), "|", V(w), "|", V(sv)], "é-val|${%s}|é-val" % sv
+        else:
+            parts, value = [look, look, V(sv), look], "${%s}${%s}é-val${%s}" % (sv, sv, sv)
+        stmts = pre + [A.pr(A.IStr(parts)), A.pr(A.Call(A.Prop(A.IStr([A.clone(p) if isinstance(p, A.Node) else p for p in parts]), "len", True), []))]
+        return {"stmts": stmts, "expect": [value, str(len(value.encode("utf-8")))], "tag": "slot_lookalike_text", "what": "text spelling a slot (%s)" % variant}
     if desc[0] == "slotkind":
         kind = desc[1]
         bad = {"int": I(1), "null": A.Null(), "bool": A.Bool(True), "list": A.lst(S("a")), "object": A.obj(), "func": V("print"),
@@ -184,6 +202,8 @@ def run(rep, tier):
             descs.append(("interp", (0, t), (s,)))
     for kind in ("int", "null", "bool", "list", "object", "func", "lone_byte"):
         descs.append(("slotkind", kind))
+    for variant in ("text_before", "text_after", "value_before", "value_after", "text_around"):
+        descs.append(("lookalike", variant))
     for nslots in (1, 2, 3, 4):
         for same in (False, True):
             descs.append(("effects", nslots, same))
